@@ -165,9 +165,9 @@ func c07Seq(tier string) []SeqJob {
 		out = append(out, SeqJob{Name: name, Spec: spec, Seconds: secs})
 	}
 	if tier == "quick" {
-		mk("seq/1key/ttl{-1,1,1.5,3,7}s/depth6", []int{1}, []int64{-1000, 1000, 1500, 3000, 7000}, 6, 40)
-		mk("seq/2keys/ttl{1,3}s/depth5", []int{1, 257}, []int64{1000, 3000}, 5, 40)
-		mk("seq/nonzero-conflict/1key/ttl{1,1.5}s/depth6", []int{-1, 3}, []int64{1000, 1500}, 6, 40)
+		mk("seq/1key/ttl{-1,1,1.5,3,7}s/depth5", []int{1}, []int64{-1000, 1000, 1500, 3000, 7000}, 5, 40)
+		mk("seq/2keys/ttl{1,3}s/depth4", []int{1, 257}, []int64{1000, 3000}, 4, 40)
+		mk("seq/nonzero-conflict/1key/ttl{1,1.5}s/depth5", []int{-1, 3}, []int64{1000, 1500}, 5, 40)
 	} else {
 		mk("seq/1key/ttl{-1,1,1.5,3,7}s/depth8", []int{1}, []int64{-1000, 1000, 1500, 3000, 7000}, 8, 560)
 		mk("seq/nonzero-conflict/2keys/ttl{1,1.5,3}s/depth7", []int{-1, 1, 3}, []int64{1000, 1500, 3000}, 7, 560)
